@@ -46,6 +46,10 @@ func genEvSession(ref core.CaseRef, r *rand.Rand) *evCase {
 				t += c.SizeMs + 1
 			case 3:
 				t += c.SizeMs * int64(2+r.Intn(4))
+				if r.Intn(10) == 0 {
+					// the source was silent for more than a day (all timestamps stay far in the past)
+					t += int64(25+r.Intn(30)) * 3600 * 1000
+				}
 			case 4:
 				t += 0
 			default:
